@@ -235,6 +235,10 @@ func (m *Machine) feasible(c *Term) Result {
 	return r
 }
 
+// replaying: decisions of the prefix are still pending, so everything up to here was executed (and
+// every assumption / assertion here was already decided) by the ancestor path that scheduled this one.
+func (m *Machine) replaying() bool { return m.pos < len(m.prefix) }
+
 // branch decides a symbolic condition for this path; the other feasible side is scheduled.
 func (m *Machine) branch(c *Term) bool {
 	if c.IsConst() {
@@ -554,6 +558,10 @@ func (m *Machine) materialize(t types.Type, name string) Value {
 				f[i] = m.zero(fl.Type())
 				continue
 			}
+			if c, ok := m.w.fixStr[fl.Name()]; ok && isString(fl.Type()) {
+				f[i] = c
+				continue
+			}
 			f[i] = m.materialize(fl.Type(), name+"."+fl.Name())
 		}
 		return &StructVal{f: f}
@@ -561,7 +569,7 @@ func (m *Machine) materialize(t types.Type, name string) Value {
 		if isByteSlice(t) {
 			return &BytesVal{segs: []Seg{{k: SegUF, t: m.freshStr(name)}}}
 		}
-		return &SliceVal{lazy: &Lazy{name: name, elem: u.Elem(), bound: m.eng.boundFor(name)}}
+		return &SliceVal{lazy: &Lazy{name: name, elem: u.Elem(), bound: m.boundFor(name)}}
 	case *types.Pointer:
 		return &LazyPtr{name: name, elem: u.Elem()}
 	case *types.Array:
@@ -577,6 +585,19 @@ func (m *Machine) materialize(t types.Type, name string) Value {
 	}
 	m.unsupported("materialize %s", t)
 	return nil
+}
+
+func (m *Machine) boundFor(name string) int {
+	best, bl := -1, 0
+	for k, v := range m.w.bounds {
+		if strings.HasSuffix(name, k) && len(k) > bl {
+			best, bl = v, len(k)
+		}
+	}
+	if best >= 0 {
+		return best
+	}
+	return m.eng.boundFor(name)
 }
 
 // deepCopy snapshots a value (marshal / unmarshal semantics): slices and pointees are copied.
